@@ -430,8 +430,10 @@ def write_evidence(mod, run, status):
         'wall_s': round(time.time() - run.t0, 2),
         'violations': len(getattr(run, 'violations', [])),
     }
-    os.makedirs(os.path.join(ROOT, 'evidence'), exist_ok=True)
-    json.dump(ev, open(os.path.join(ROOT, 'evidence', prop + '.json'), 'w'), indent=1, default=str)
+    # VERIF_EVIDENCE_DIR: development only (self-tests on patched trees keep the committed evidence of the unchanged tree intact)
+    evdir = os.environ.get('VERIF_EVIDENCE_DIR') or os.path.join(ROOT, 'evidence')
+    os.makedirs(evdir, exist_ok=True)
+    json.dump(ev, open(os.path.join(evdir, prop + '.json'), 'w'), indent=1, default=str)
 
 
 if __name__ == '__main__':
